@@ -11,6 +11,7 @@ import (
 	"path/filepath"
 	"sort"
 	"strings"
+	"sync"
 	"time"
 
 	"golang.org/x/tools/go/packages"
@@ -21,10 +22,10 @@ import (
 const modulePath = "github.com/fullstorydev/grpchan"
 
 type Prog struct {
-	Prog   *ssa.Program
-	Pkgs   []*packages.Package
-	Fset   *token.FileSet
-	TW     *TypeWorld
+	Prog    *ssa.Program
+	Pkgs    []*packages.Package
+	Fset    *token.FileSet
+	TW      *TypeWorld
 	RepoDir string
 
 	Funcs     map[string]*ssa.Function // "<pkgpath>::<contract name>"
@@ -43,18 +44,21 @@ type Prog struct {
 	loopCache  map[*ssa.Function]map[*ssa.BasicBlock]*loopInfo
 	fieldKinds map[string]int
 
-	QueryTimeoutMs int
-	UnitTimeout    time.Duration
-	AllPkgs        map[string]*types.Package // by path
-	leakCache  map[ssa.Value]bool
-	immutCache map[*ssa.Global]bool
-	guardOf    map[string]guardInfo       // fa function of a guarded field -> its mutex
-	guardedBy  map[string][]guardedField  // fa function of a mutex field -> guarded fields
+	QueryTimeoutMs    int
+	UnitTimeout       time.Duration
+	AllPkgs           map[string]*types.Package // by path
+	mu                sync.Mutex
+	leakCache         map[ssa.Value]bool
+	immutCache        map[*ssa.Global]bool
+	guardOf           map[string]guardInfo      // fa function of a guarded field -> its mutex
+	guardedBy         map[string][]guardedField // fa function of a mutex field -> guarded fields
 	ContractFilesUsed []string
 	MirrorUsed        []string
 }
 
 func (p *Prog) fnID(f *ssa.Function) int {
+	p.mu.Lock()
+	defer p.mu.Unlock()
 	if id, ok := p.fnIDs[f]; ok {
 		return id
 	}
